@@ -33,6 +33,15 @@ class KpeRaise(Exception):
         self.text = text
 
 
+class RuntimeNameError(Exception):
+    """A name that is bound only under `if TYPE_CHECKING:` (or not at all) is used at run time."""
+
+    def __init__(self, name, modname):
+        super().__init__(f"name '{name}' is not bound at run time in {modname} (imported only under TYPE_CHECKING)")
+        self.name = name
+        self.modname = modname
+
+
 class _Return(Exception):
     def __init__(self, value):
         self.value = value
@@ -259,6 +268,8 @@ class Interp:
 
     # ------------------------------------------------------------------ name resolution
     def module_lookup(self, mod, name):
+        if name in mod.type_only and name not in mod.defs and name not in mod.assigns:
+            raise RuntimeNameError(name, mod.name)
         r = ri.resolve(mod, name)
         if r is None:
             if name in _BUILTIN_NAMES:
